@@ -29,7 +29,7 @@ ROOT = os.path.dirname(HERE)
 OUT = os.path.join(ROOT, "lean", "TflModel", "Generated", "Accept.lean")
 CACHE = os.path.join(ROOT, "lean", ".lake", "accept_cache.json")
 TABLE_ROWS = 3000          # rows per class in the kernel-checked table when the product is sampled
-FULL_LIMIT = 8000          # cross products up to this size are tabulated exhaustively
+FULL_LIMIT = 10000         # cross products up to this size (baselines counted separately) are tabulated exhaustively
 CHUNK = 500
 
 TOKS = ["increasing", "decreasing", "none", "peak", "valley", "positive", "negative", "convex",
@@ -130,7 +130,12 @@ JOINT_MONO = [None, [], [(0, 1)], (0, 1), [(0, 9)], [(0,)], [(0, -1)], [(1, 0), 
 JOINT_UNI = [None, ("list", []), ("list", [([0], "peak")]), ("list", [([0, 1], "valley")]),
              ("single", [0, 1], "valley"), ("list", [([0, 0], "peak")]), ("list", [([0], "up")]),
              ("list", [([0], 1)]), ("list", [([7], "peak")]), ("list", [([-1], "peak")]),
-             ("list", [([0], "Peak"), ([1], "valley")])]
+             ("list", [([0], "Peak"), ([1], "valley")]),
+             # repeated dimensions after a valid constraint / a dimension == rank - 1, == rank, far outside
+             ("list", [([0], "valley"), ([1, 0, 1], "peak")]), ("list", [([1, 2], "valley")]),
+             ("list", [([2], "peak")]), ("list", [([0, 3], "peak")]), ("single", [0], "peak"),
+             ("single", [0, 0], "valley"), ("single", [0, 9], "peak"), ("single", [0], 1),
+             ("list", [([0, 1, 2], "valley")])]
 SIZES = [[2], [2, 2], [3, 3], [3, 2], [2, 3, 2], [3, 3, 3], [1, 2], [2, 0], (3, 3)]
 BOUNDS = [(None, None), (0.0, 1.0), (1.0, 0.0), (0.0, 0.0), (None, 1.0), (0.0, None), (-1.0, 2.0), (0, 1)]
 
@@ -354,14 +359,55 @@ def _specs():
                 lc_factors, lambda c: lin.LinearConstraints(**c)))
   def ll_factors(b):
     n = b["num_input_dims"]
-    return dict(num_input_dims=[1, 2, 3, 0], monotonicities=lmono(n) + [1, "increasing", -1, 0, "none", 2, "peak"])
-  S.append(Spec("Linear", "linearLayer", [("num_input_dims", "v"), ("monotonicities", "v")],
-                [dict(num_input_dims=2, monotonicities=[1, 0]), dict(num_input_dims=3, monotonicities="increasing"),
-                 dict(num_input_dims=1, monotonicities=None)],
+    # since fix 4a8f232 `Linear.__init__` hands input_min / input_max to the verification: wrong
+    # lengths, crossed bounds and non-float entries with and WITHOUT monotonicities (no constraint object)
+    return dict(num_input_dims=[1, 2, 3, 0], monotonicities=lmono(n) + [1, "increasing", -1, 0, "none", 2, "peak"],
+                input_min=lbound(n, 0.0, 1.0) + [[0.0] * (n - 1), [2.0] * n],
+                input_max=lbound(n, 1.0, 0.0) + [[1.0] * (n - 1), [-1.0] * n])
+  S.append(Spec("Linear", "linearLayer", [("num_input_dims", "v"), ("monotonicities", "v"), ("input_min", "v"),
+                                           ("input_max", "v")],
+                [dict(num_input_dims=2, monotonicities=[1, 0], input_min=None, input_max=None),
+                 dict(num_input_dims=3, monotonicities="increasing", input_min=[0.0, 0.0, 0.0], input_max=None),
+                 dict(num_input_dims=1, monotonicities=None, input_min=None, input_max=None),
+                 dict(num_input_dims=3, monotonicities=None, input_min=[0.0, None, 0.0], input_max=[1.0, 1.0, 1.0])],
                 ll_factors, lambda c: lin.Linear(**c)))
+  # ---- Lattice.__init__: two verifications (the second one, of the joint unimodalities, since fix
+  # f995047) and create_kernel_initializer, which indexes per-dimension lists by the jointly unimodal dims
+  KINIT = {"other": "random_uniform_or_linear_initializer"}
+  def lay_factors(b):
+    n = len(b["lattice_sizes"])
+    return dict(lattice_sizes=_uniq([b["lattice_sizes"]] + [s for s in SIZES if len(s) == n]),
+                monotonicities=lattice_mono(n), unimodalities=lattice_uni(n), joint_unimodalities=JOINT_UNI,
+                output_min=[None, 0.0, 1.0, 0, 2.0], output_max=[None, 0.0, 1.0, 2.0, -1.0],
+                interpolation=["hypercube", "simplex", "Simplex", "other"],
+                kernel_initializer=["other", "linear_initializer", "random_monotonic_initializer", "uniform"])
+  def lay_base(sizes, mono, ju=None, init="other"):
+    return dict(lattice_sizes=sizes, monotonicities=mono, unimodalities=None, joint_unimodalities=ju,
+                output_min=None if len(sizes) == 1 else 0.0, output_max=None if len(sizes) == 3 else 1.0,
+                interpolation="hypercube", kernel_initializer=init)
+  def lay_call(c):
+    kw = dict(c)
+    kw["joint_unimodalities"] = ju_py(c["joint_unimodalities"])
+    kw["kernel_initializer"] = KINIT.get(c["kernel_initializer"], c["kernel_initializer"])
+    return ll.Lattice(**kw)
+  S.append(Spec("Lattice", "latticeLayer",
+                [("lattice_sizes", "v"), ("monotonicities", "v"), ("unimodalities", "v"), ("joint_unimodalities", "ju"),
+                 ("output_min", "v"), ("output_max", "v"), ("interpolation", "v"), ("kernel_initializer", "v")],
+                [lay_base([2, 2], [1, 1]), lay_base([3, 3], [1, 0]), lay_base([3, 3, 3], None, ("list", [([0, 1], "valley")])),
+                 lay_base([3, 3], [0, 0], ("list", [([0, 1], "peak")]), "uniform"),
+                 lay_base([3, 3, 3], [0, 0, 1], ("single", [0, 1], "valley"), "linear_initializer"),
+                 lay_base([3, 3], None, ("list", [([1], "peak")]), "random_monotonic_initializer")],
+                lay_factors, lay_call))
   # ---- Categorical
   PAIRS = [None, [], [(0, 1)], [[0, 1]], (0, 1), ((0, 1),), [(0, 1), (1, 2)], [(0, 1), (1, 0)], [(0, 1), (1, 2), (2, 1)],
-           [(0, 0)], [(0, 7)], [(-1, 0)], [(0, 1, 2)], [(0,)], [0, 1], [(2, 3)], [(0, 1), (2, 3), (3, 2)]]
+           [(0, 0)], [(0, 7)], [(-1, 0)], [(0, 1, 2)], [(0,)], [0, 1], [(2, 3)], [(0, 1), (2, 3), (3, 2)],
+           # the cycle check of fix 66006cc: repeated pairs, diamonds and long chains (accepted, several rounds);
+           # self pair behind / before valid pairs, 3-cycles, a cycle behind a root, a cycle followed by a tail,
+           # list-valued cyclic pairs, a cycle through a float-spelled index (1.0 == 1), cycle + out-of-range pair
+           [(0, 1), (0, 1)], [(0, 1), (0, 2), (1, 3), (2, 3)], [(2, 3), (1, 2), (0, 1)], [(0, 1), (1, 2), (0, 2)],
+           [(0, 1), (1, 1)], [(1, 1), (0, 2)], [(0, 1), (1, 2), (2, 0)], [(0, 1), (1, 2), (2, 3), (3, 1)],
+           [(1, 2), (2, 1), (2, 3)], [[0, 1], [1, 0]], [(0, 1), (1.0, 0)], [(0, 1.0)], [(0, 1), (1, 0), (0, 7)],
+           [(0, 1), (1, 0), (0, 1)], [(3, 2), (2, 1), (1, 0), (0, 3)]]
   def cc_factors(b):
     return dict(num_buckets=[1, 2, 3, 4, None], output_min=OUTB, output_max=OUTB, monotonicities=PAIRS)
   S.append(Spec("CategoricalCalibrationConstraints", "categoricalConstraints",
@@ -595,7 +641,7 @@ def build_table():
 REC = {"latticeConstraints": "RawLattice", "linearInitializer": "RawLatInit", "randomMonotonicInitializer": "RawLatInit2",
        "laplacianRegularizer": "RawLatReg", "torsionRegularizer": "RawLatReg", "pwlCalibration": "RawPwl",
        "pwlConstraints": "RawPwlC", "uniformOutputInitializer": "RawPwlInit", "linearConstraints": "RawLinC",
-       "linearLayer": "RawLin", "categoricalConstraints": "RawCatC", "categoricalLayer": "RawCat",
+       "linearLayer": "RawLin", "latticeLayer": "RawLatLayer", "categoricalConstraints": "RawCatC", "categoricalLayer": "RawCat",
        "kflLayer": "RawKfl", "rtlLayer": "RawRtl", "premadeConfig": "RawPremade"}
 PM_TYPES = ["Nat", "Option (List Feat)", "Nat", "Nat", "Nat", "Nat", "Option Int", "Int", "Nat", "Nat", "Nat"]
 DEFAULTS = {"Val": ".a .none", "JU": ".none", "Nat": "0", "Int": "0", "Option (List Feat)": "none", "Option Int": "none"}
